@@ -18,7 +18,7 @@ impl UpgradeableMigratableInternal for Migr {
 
     fn _require_auth(e: &Env, operator: &Address) {
         operator.require_auth();
-        let owner: Address = e.storage().instance().get(&Symbol::new(e, "owner")).unwrap();
+        let owner: Address = e.storage().instance().get(&soroban_sdk::symbol_short!("OWNER")).unwrap();
         if *operator != owner {
             panic!("not the owner");
         }
@@ -34,7 +34,8 @@ impl UpgradeableMigratableInternal for Migr {
 #[contractimpl]
 impl Migr {
     pub fn __constructor(e: &Env, owner: Address) {
-        e.storage().instance().set(&Symbol::new(e, "owner"), &owner);
+        // same key as the repository's upgradeable examples, so that their prebuilt v2 can take over
+        e.storage().instance().set(&soroban_sdk::symbol_short!("OWNER"), &owner);
     }
     /// what the macro-generated `upgrade` does right before it swaps the code
     pub fn simulate_upgrade_flag(e: &Env) {
